@@ -41,7 +41,27 @@ def pathy(g, depth=2):
 
 
 def jsonable(a):
-    if isinstance(a, PathT) or isinstance(a, type):
+    if isinstance(a, PathT):
+        # the literals inside a data-path argument (keys, values, labels, arguments of its conditions) must be JSON data too
+        for part in a.parts:
+            if not hasattr(part, "kw"):
+                if not (isinstance(part.v, (str, bool, int)) or (isinstance(part.v, float) and part.v == part.v and abs(part.v) != float("inf"))):
+                    return False
+                continue
+            if part.label is not None and not jsonable(part.label):
+                return False
+            for ca in part.kw.values():
+                if ca is None:
+                    continue
+                if ca.is_lit:
+                    if not jsonable(ca.lit):
+                        return False
+                else:
+                    for l in nested_leaves(ca.cond):
+                        if not all(jsonable(x) for x in list(l.args) + list(l.kwargs.values())):
+                            return False
+        return a.src is None or jsonable(a.src)
+    if isinstance(a, type):
         return True
     if isinstance(a, (list,)):
         return all(jsonable(x) for x in a)
